@@ -432,6 +432,13 @@ impl Builder<'_> {
                 self.events.push(Ev::Folder { add: self.folder_present, b: false });
             }
         }
+        if self.sched.chance(1, 40) {
+            // re-read the configuration: removed and added in one notification
+            let b = !self.b_variants.is_empty() && self.sched.chance(1, 2);
+            if (b && self.folder_b_present) || (!b && self.folder_present) {
+                self.events.push(Ev::FolderReadd { b });
+            }
+        }
         if self.sw.external && self.sched.chance(1, 15) {
             // a module that is not open vanishes from disk
             let cands: Vec<String> = self.disk.keys().filter(|p| !self.open.contains_key(*p) && !p.ends_with("main.oal")).cloned().collect();
